@@ -29,6 +29,8 @@ fn main() {
         i += 1;
     }
     cvx::choicesat::install_quiet_panic_hook();
+    // wall-clock budget: explorations stop (flagged as capped) once it is used up
+    cvx::choicesat::set_deadline_in(std::env::var("CVX_BUDGET_S").ok().and_then(|x| x.parse().ok()).unwrap_or(if tier == Tier::Thorough { 3 * 3600 } else { 15 * 60 }));
     if args[1] == "c16-scenario" {
         let pad: usize = args.get(3).and_then(|x| x.parse().ok()).unwrap_or(0);
         let big = args.get(4).map(|x| x == "1").unwrap_or(false);
